@@ -27,6 +27,136 @@ def _scratch():
     return scratch_dir()
 
 
+_VARS_CACHE: Dict[int, frozenset] = {}
+_KEEP = []          # keeps the cached terms alive so that ids are not re-used
+
+
+def vars_of(term) -> frozenset:
+    """Names of the uninterpreted constants of a z3 term (memoised per AST id)."""
+    tid = term.get_id()
+    got = _VARS_CACHE.get(tid)
+    if got is not None:
+        return got
+    seen = set()
+    out = set()
+    stack = [term]
+    while stack:
+        t = stack.pop()
+        i = t.get_id()
+        if i in seen:
+            continue
+        seen.add(i)
+        sub = _VARS_CACHE.get(i)
+        if sub is not None:
+            out |= sub
+            continue
+        if z3.is_app(t):
+            if t.num_args() == 0:
+                if t.decl().kind() == z3.Z3_OP_UNINTERPRETED:
+                    out.add(t.decl().name())
+            else:
+                stack.extend(t.children())
+        elif z3.is_quantifier(t):
+            stack.append(t.body())
+    res = frozenset(out)
+    if len(_VARS_CACHE) > 200000:
+        _VARS_CACHE.clear()
+        del _KEEP[:]
+    _VARS_CACHE[tid] = res
+    _KEEP.append(term)
+    return res
+
+
+_FP_CACHE: Dict[int, bool] = {}
+
+
+def has_fp(term) -> bool:
+    """Does the term mention a floating-point (or real) sorted sub-term?  Memoised per AST id."""
+    tid = term.get_id()
+    got = _FP_CACHE.get(tid)
+    if got is not None:
+        return got
+    seen = set()
+    stack = [term]
+    res = False
+    while stack:
+        t = stack.pop()
+        i = t.get_id()
+        if i in seen:
+            continue
+        seen.add(i)
+        sub = _FP_CACHE.get(i)
+        if sub is True:
+            res = True
+            break
+        if sub is False:
+            continue
+        k = t.sort().kind()
+        if k in (z3.Z3_FLOATING_POINT_SORT, z3.Z3_ROUNDING_MODE_SORT, z3.Z3_REAL_SORT):
+            res = True
+            break
+        if z3.is_app(t):
+            stack.extend(t.children())
+        elif z3.is_quantifier(t):
+            stack.append(t.body())
+    if len(_FP_CACHE) > 400000:
+        _FP_CACHE.clear()
+    _FP_CACHE[tid] = res
+    _KEEP.append(term)
+    return res
+
+
+def slice_independent(base: List, extra: List) -> Tuple[List, List]:
+    """Split `base` (a path condition known to be satisfiable) into the conjuncts that share variables, directly or
+    transitively, with `extra`, and the rest.  sat(base & extra) <=> sat(relevant & extra), because the rest is
+    satisfiable on its own and shares no variable with the relevant part."""
+    target = set()
+    for e in extra:
+        target |= vars_of(e)
+    if not target:
+        return list(base), []
+    info = [(c, vars_of(c)) for c in base]
+    chosen = [False] * len(info)
+    changed = True
+    while changed:
+        changed = False
+        for i, (c, vs) in enumerate(info):
+            if not chosen[i] and vs & target:
+                chosen[i] = True
+                target |= vs
+                changed = True
+    rel = [c for i, (c, _) in enumerate(info) if chosen[i]]
+    rest = [c for i, (c, _) in enumerate(info) if not chosen[i]]
+    return rel, rest
+
+
+def solve_sliced(base: List, extra: List, *, timeout_ms=20000, first_ms=None, model_vars: Optional[List] = None,
+                 external=True) -> Tuple[str, Optional[Dict]]:
+    """solve(base + extra) by constraint independence: only the part of the (satisfiable) path condition `base` that is
+    connected to `extra` is sent to the solver; a model is completed with a model of the independent rest."""
+    rel, rest = slice_independent(base, extra)
+    if not rest:
+        return solve(rel + list(extra), timeout_ms=timeout_ms, first_ms=first_ms, model_vars=model_vars, external=external)
+    STATS["sliced"] = STATS.get("sliced", 0) + 1
+    relvars = set()
+    for c in rel + list(extra):
+        relvars |= vars_of(c)
+    mv = list(model_vars or [])
+    mv_rel = [v for v in mv if str(v) in relvars]
+    r, m = solve(rel + list(extra), timeout_ms=timeout_ms, first_ms=first_ms, model_vars=mv_rel if model_vars is not None else None,
+                 external=external)
+    if r != "sat" or model_vars is None:
+        return r, m
+    mv_rest = [v for v in mv if str(v) not in relvars]
+    r2, m2 = solve(rest, timeout_ms=timeout_ms, first_ms=first_ms, model_vars=mv_rest, external=external)
+    if r2 != "sat":
+        # the rest should be satisfiable (it is part of a feasible path); fall back to the unsliced query
+        return solve(list(base) + list(extra), timeout_ms=timeout_ms, first_ms=first_ms, model_vars=model_vars, external=external)
+    m = dict(m or {})
+    m.update(m2 or {})
+    return "sat", m
+
+
 def solve(assertions: List, *, timeout_ms=20000, first_ms=None, model_vars: Optional[List] = None,
           external=True) -> Tuple[str, Optional[Dict]]:
     """Return (status, model) where model maps str(var) -> python value for model_vars (if sat)."""
